@@ -75,8 +75,8 @@ CHECKS = {
    ref="DESIGN.md §5 C08, Appendix A"),
  "C12": dict(
    technique="PBT invariant checking with regime-biased generators (volatile -> exactly flat -> volatile, zero volume, high == low)",
-   text="All 37 indicators on regime streams sized to the configuration's longest window, every step: documented intervals (incl. TrendStrengthIndex in [-1,1] with a conditioning-aware allowance and a generator of exactly linear stretches), band orderings, channel containment, SAR side (exact), non-negative dispersion, clv range and finiteness of every value wherever the formula is defined; no conditioning exemption for the flat regimes.",
-   note="Pure predicates on outputs, no reference model. Five fix: commits (RSI, MFI, CMO, TrendStrengthIndex, Vidya) removed the violations found.",
+   text="All 37 indicators on regime streams sized to the configuration's longest window, every step: documented intervals (incl. TrendStrengthIndex in [-1,1] with a conditioning-aware allowance and a generator of exactly linear stretches; ADX/+DI/-DI in [0,1] where that follows from the formula), band orderings, channel containment, SAR side (exact), non-negative dispersion, clv range and finiteness of every value wherever the formula is defined; no conditioning exemption for the flat regimes.",
+   note="Pure predicates on outputs, no reference model. Six fix: commits (RSI, MFI, CMO, TrendStrengthIndex, Vidya, ADX directional averages) removed the violations found.",
    ref="DESIGN.md §5 C12, Appendix A"),
  "C07": dict(
    technique="long procedural streams with late checkpoints: definitional comparison on a ring of recent inputs + metamorphic fresh-instance-primed-with-last-window relation",
